@@ -704,6 +704,15 @@ func genClientFaults(g *G, p *profile, sc *Scenario, c *ClientSpec, pi, pt int) 
 			c.PongDelayMs = []int{g.pick(pt-1, pt, pt+1, -1)}
 		}
 	}
+	if c.EIO != 4 && c.V3PingMs > 0 && g.p(p.pLatePong) {
+		// a revision-3 client whose pings arrive around the deadline (interval + timeout after the previous one):
+		// just in time, exactly at the deadline instant, just too late
+		c.V3PingMs = pi + pt + g.pick(-1, 0, 0, 1) - 2*c.LatencyMs
+		c.PongDelayMs = nil
+		if c.V3PingMs < 5 {
+			c.V3PingMs = 5
+		}
+	}
 	if c.EIO == 4 && g.p(p.pLatePong*0.6) {
 		// unsolicited / duplicated pongs at arbitrary instants (before the first ping, between ping and deadline, after a pong)
 		n := g.rng(1, 3)
